@@ -903,6 +903,40 @@ func dischargeOne(ex *Exec, ob *Obligation, opts dischargeOpts) {
 			return
 		}
 	}
+	// cover: a contract-level obligation that holds on every path only because
+	// every path to it is infeasible holds vacuously - report that
+	if os.Getenv("GOVC_NOCOVER") == "" && coverKind(ob) {
+		covered := false
+		var detail []string
+		for i, q := range ob.Queries {
+			if isTrue(q.Goal) && len(q.Hyps) == 0 {
+				covered = true // decided without a solver and without assumptions
+				break
+			}
+			hyps := append(append([]*Term(nil), ax...), q.Hyps...)
+			script := q.Decls.query(hyps, nil, nil)
+			best, _ := raceSolvers(opts.dir, fmt.Sprintf("%s.%d.cover", ob.Name, i), script, 1, false)
+			if best.Verdict != "unsat" {
+				covered = true
+				break
+			}
+			detail = append(detail, fmt.Sprintf("path %s: hypotheses unsatisfiable", q.Path))
+		}
+		if !covered && len(ob.Queries) > 0 {
+			ob.Verdict = "undischarged"
+			ob.Detail = "vacuity: the obligation is proved only because no path reaches it: " + strings.Join(detail, "; ")
+		}
+	}
+}
+
+// coverKind: obligations that come from contract text (not the zero-annotation
+// safety sweep) get a reachability check of their own.
+func coverKind(ob *Obligation) bool {
+	switch ob.Kind {
+	case "assert", "post", "lockinv", "guarantee":
+		return true
+	}
+	return strings.HasPrefix(ob.Kind, "inv")
 }
 
 func envOr(k, d string) string {
